@@ -5,6 +5,8 @@ import "io"
 type vpIt struct {
 	key []byte
 	err bool
+	rec any
+	bad bool
 }
 
 func vpKey(f *Fasta) []byte {
@@ -15,6 +17,10 @@ func vpKey(f *Fasta) []byte {
 func vpIter(api int, r io.Reader, fn func(vpIt) bool) {
 	for fa, err := range Reader(r) {
 		it := vpIt{err: err != nil}
+		it.bad = (fa == nil) == (err == nil)
+		if fa != nil {
+			it.rec = fa
+		}
 		if err == nil {
 			it.key = vpKey(fa)
 		}
@@ -35,6 +41,8 @@ func vpIterFile(api int, path string, fn func(vpIt) bool) {
 		}
 	}
 }
+
+func vpRawOK(c byte) bool { return true }
 
 func vpErrIsLast() bool { return true }
 
@@ -70,4 +78,36 @@ func vpWriteSample(tag string, shape int, w io.Writer) (error, int) {
 		}
 	}
 	return nil, total
+}
+
+func vpTemplate(k int) []byte {
+	// '>' + name token, newline, two sequence tokens on separate lines
+	var out []byte
+	out = append(out, '>')
+	out = append(out, vpBytes("t0", 1)...)
+	out = append(out, '\n')
+	out = append(out, vpBytes("t1", 2)...)
+	out = append(out, '\n')
+	out = append(out, vpBytes("t2", 1+k)...)
+	return out
+}
+
+func vpFixedPoint(rec any) (bool, bool) {
+	f := rec.(*Fasta)
+	for _, c := range f.Name {
+		if c == '\n' || c == '\r' {
+			return false, false
+		}
+	}
+	for _, c := range f.Sequence {
+		if c == '\n' || c == '\r' || c == '>' {
+			return false, false
+		}
+	}
+	var w vpBuf
+	if f.Write(&w) != nil {
+		return true, false
+	}
+	got := vpCollect(vpOneShot(w.b), 3)
+	return true, len(got) == 1 && !got[0].err && string(got[0].name) == string(f.Name) && string(got[0].seq) == string(f.Sequence)
 }
